@@ -52,6 +52,10 @@ pub struct Case {
     /// delivery i runs concurrently with delivery i+1
     pub overlap: Vec<bool>,
     pub sched: Vec<u16>,
+    /// delivery i has returned, but the store's completion notification of its write is handled only
+    /// after delivery i+1 (sequential deliveries, late acknowledgement)
+    #[serde(default)]
+    pub defer_acks: Vec<bool>,
 }
 
 fn path_strategy() -> impl Strategy<Value = Path> {
@@ -88,9 +92,10 @@ fn case_strategy() -> BoxedStrategy<Case> {
                 proptest::collection::vec(delivery_strategy(kind), 1..vh_core::depth(10, 26)),
                 proptest::collection::vec(prop_oneof![3 => Just(false), 1 => Just(true)], 26),
                 proptest::collection::vec(any::<u16>(), 0..vh_core::depth(24, 64)),
+                proptest::collection::vec(prop_oneof![2 => Just(false), 1 => Just(true)], 26),
             )
         })
-        .prop_map(|(kind, deliveries, overlap, sched)| Case { kind, deliveries, overlap, sched })
+        .prop_map(|(kind, deliveries, overlap, sched, defer_acks)| Case { kind, deliveries, overlap, sched, defer_acks })
         .boxed()
 }
 
@@ -365,6 +370,8 @@ fn check(case: &Case, ctx: &mut Ctx) {
     let mut sched_i = 0usize;
     let (mut stale, mut accepted_updates, mut overlaps, mut overlap_orders_differ) = (0, 0, 0, 0);
     let mut max_pad_counter_seen: u64 = 0;
+    let mut late_acks = 0;
+    let (mut limbo, mut last_result_err, mut last_before): (bool, bool, Option<Model>) = (false, false, None);
     let mut i = 0usize;
     while i < case.deliveries.len() {
         let pair = i + 1 < case.deliveries.len() && case.overlap.get(i).copied().unwrap_or(false);
@@ -379,9 +386,20 @@ fn check(case: &Case, ctx: &mut Ctx) {
                 stale += 1;
             }
             let (rec, path) = w.record_for(&d, i);
+            let hold = case.defer_acks.get(i).copied().unwrap_or(false) && i + 1 < case.deliveries.len();
+            // an earlier write of this key is done but its completion has not been handled yet, and
+            // will not be before this delivery has been judged
+            limbo = hold && w.cl.pending.iter().any(|a| a.is_notification());
             let op = w.start(rec, path);
-            w.cl.settle_op(&op);
-            w.cl.settle();
+            if hold {
+                w.cl.settle_op_holding_acks(&op);
+                late_acks += 1;
+            } else {
+                w.cl.settle_op(&op);
+                w.cl.settle();
+            }
+            last_result_err = op.take().map(|r| r.is_err()).unwrap_or(false);
+            last_before = Some(before.clone());
             i += 1;
         } else {
             overlaps += 1;
@@ -436,6 +454,14 @@ fn check(case: &Case, ctx: &mut Ctx) {
             return;
         }
         let Some(obs) = w.observe(kind, ctx, &at) else { return };
+        // An unpaid update is only taken for a record the node "already holds"; while the previous
+        // write of that record is still unacknowledged the node may say it does not hold it yet and
+        // REFUSE the update (the uploader gets an error): either outcome is within the statement.
+        let unpaid = matches!(&case.deliveries[i - 1], Delivery::Pad { path: Path::Unpaid, .. } | Delivery::Tx { path: Path::Unpaid, .. } | Delivery::Reg { path: Path::Unpaid, .. });
+        if obs != model && limbo && unpaid && last_result_err && Some(&obs) == last_before.as_ref() {
+            ctx.label("unpaid_update_refused_while_previous_write_unacknowledged(either)");
+            model = obs.clone();
+        }
         if obs != model {
             let sig = match (&obs, &model) {
                 (Model::Pad(Some((oc, _))), Model::Pad(Some((mc, _)))) if oc < mc => "scratchpad_higher_valid_update_not_applied",
@@ -463,6 +489,7 @@ fn check(case: &Case, ctx: &mut Ctx) {
     ctx.label_if(stale > 0, "rejected_or_stale_delivery");
     ctx.label_if(accepted_updates > 1, "several_accepted_updates");
     ctx.label_if(overlaps > 0, "overlapping_pair");
+    ctx.label_if(late_acks > 0, "delivery_before_the_previous_write_was_acknowledged");
     ctx.label_if(overlap_orders_differ > 0, "overlap_whose_serial_orders_differ");
     ctx.nontrivial_if((stale > 0 && accepted_updates > 0) || overlaps > 0);
 }
